@@ -391,7 +391,7 @@ template <class Dec> static int run_frame(const std::string& eng, Dec& dec, cons
         ExactBuf eb(f);
         if (o.via_api && e.parsed && e.h.type == 2 && e.h.prot && e.h.carries_data() && f.size() > e.off) {        // same frame assembled through the public classes
             const Hdr& h = e.h; Dot11Data* d = h.has_qos() ? new Dot11QoSData(hw(h.a1), hw(h.a2)) : new Dot11Data(hw(h.a1), hw(h.a2)); pdu.reset(d);
-            d->subtype(h.subtype); d->to_ds(h.to_ds); d->from_ds(h.from_ds); d->more_frag(h.more_frag); d->retry(h.retry); d->power_mgmt(h.pwr); d->wep(h.prot); d->order(h.order); d->more_data(h.more_data);
+            d->protocol(h.ver); d->subtype(h.subtype); d->to_ds(h.to_ds); d->from_ds(h.from_ds); d->more_frag(h.more_frag); d->retry(h.retry); d->power_mgmt(h.pwr); d->wep(h.prot); d->order(h.order); d->more_data(h.more_data);
             d->duration_id(h.dur); d->addr3(hw(h.a3)); if (h.four()) d->addr4(hw(h.a4)); d->frag_num(h.frag); d->seq_num(h.seq);
             if (h.has_qos()) static_cast<Dot11QoSData*>(d)->qos_control(h.qc);
             d->inner_pdu(new RawPDU(eb.data() + e.off, (u32)(f.size() - e.off))); cnt("parse:built-through-api");
@@ -566,12 +566,26 @@ static void case_frames(long idx, Rng& r) {
 
 static void case_handshake(long idx, Rng& r);
 static void case_hostile(long idx, Rng& r);
+// The reference primitives against published vectors (IEEE 802.11i Annex H, RFC-style RC4/CRC check values); a failure here
+// means the monitor itself is broken on this platform and is reported as such.
+static void self_test() {
+    auto bad = [](const char* what) { violation(std::string("harness/selftest/") + what, std::string("reference primitive failed its published test vector: ") + what); };
+    if (rf::crc32((const u8*)"123456789", 9) != 0xcbf43926u) bad("crc32");
+    { u8 o[9]; rf::rc4((const u8*)"Key", 3, (const u8*)"Plaintext", 9, o); if (hex(o, 9) != "bbf316e8d940af0ad3") bad("rc4"); }
+    { Bytes tk = unhex("63893b250840b8ae0bd0fa7e61d2783e"), ta = unhex("64f2eaeddc25"); u16 p1[5]; u8 k[16]; rf::tkip_p1(tk.data(), ta.data(), 0x20DCFD43u, p1); rf::tkip_p2(tk.data(), p1, 0xffff, k);
+      if (p1[0] != 0x7c67 || p1[4] != 0xb4f1 || hex(k, 16) != "ff7fff93810fc6e58f5dd326251544ce") bad("tkip-key-mixing"); }
+    { u8 key[8] = {0xd5, 0x5e, 0x10, 0x05, 0x10, 0x12, 0x89, 0x86}, mic[8]; Bytes m = {'M', 'i', 'c', 'h', 'a', 'e', 'l'}; rf::michael(key, m, mic); if (hex(mic, 8) != "0a942b124ecaa546") bad("michael"); }
+    if (hex(rf::pbkdf2("password", "IEEE")) != "f42c6fc52df0ebef9ebb4b90b38a5f902e83fe1b135a70e23aed762e9710a12e") bad("pbkdf2");
+    { u8 key[16] = {1, 2, 3}, n[13] = {9}, aad[22] = {7}, tag[8], pt[20] = {5, 6}, ct[20], back[20];
+      bool ok = rf::ccm(true, key, n, aad, 22, pt, 20, ct, tag) && rf::ccm(false, key, n, aad, 22, ct, 20, back, tag) && !memcmp(pt, back, 20); tag[7] ^= 1; ok = ok && !rf::ccm(false, key, n, aad, 22, ct, 20, back, tag);
+      if (!ok) bad("ccm-roundtrip"); }
+}
 #ifndef C09_NO_MAIN
 int main(int argc, char** argv) {
     return vf::run(argc, argv, "C09", [&](long idx, Rng& rng) {
         const std::string& mode = st().a.mode;
         if (mode == "handshake") case_handshake(idx, rng); else if (mode == "hostile") case_hostile(idx, rng); else case_frames(idx, rng);
-    }, [] { rf::init_tables(); });
+    }, [] { rf::init_tables(); self_test(); });
 }
 #endif
 
